@@ -314,6 +314,13 @@ def main(ctx, args):
     fixed("ctrl-k-multibyte", True, "i\x0b😀\x1b")
     fixed("self-executing-register", False, "rs b\n.\nra : a\n.\nra : a\n")
     fixed("change-in-empty-buffer", True, "ia\nb\x1bggdGsx\x1bggdGcwy\x1bggdGCz\x1b")
+    # the commands that copy the word under the cursor into fixed buffers (^A ^] gd gf gl ^W]), on words around and beyond their sizes
+    words = "\n".join(["a" * n for n in (118, 119, 120, 121, 130, 255, 256, 257, 300)] + ["\u6f22" * n for n in (39, 40, 41, 45, 90)] +
+                      ["/" + "ab-./:" * 45, "x" * 700, "\u00e9" * 59, "\u00e9" * 60, "\u00e9" * 61]) + "\n"
+    for i in range(18):
+        for cmdkeys in ("\x01", "\x1d", "gd", "gf", "gl", "\x17]", "\x17gf", "\x17gl", "2\x01", "*"):
+            corpus.append({"origin": "corpus/cursor-word", "vi": True, "cps": [ord(c) for c in ("%dG" % (i + 1)) + cmdkeys + "\x1b"], "size": (24, 80),
+                           "file": words, "exinit": "", "k": -1})
     with ThreadPoolExecutor(NCPU) as ex:
         results = list(ex.map(lambda s: run_stream(ctx, s, safebin), streams + corpus))
     st = dict(streams=len(streams), ex_streams=sum(1 for s in streams if not s["vi"]), vi_streams=sum(1 for s in streams if s["vi"]),
